@@ -27,6 +27,11 @@ CHECKS = {
     note='Trusted: z3, symx executor, AST transform that disables grouping. Rheology values abstracted as a function of frequency. Replays go through the public quick_tidal_dissipation API at generic parameters.',
     technique='symbolic execution with table abstraction + z3 nonlinear real arithmetic with ite (sign/abs) and uninterpreted rheology function',
     design='2/C10'),
+ 'C11': dict(
+    text='Bounded SMT validity checking: the single/dual dissipation rate functions, the Kepler conversion and the result-assembly slices of the quick_tides functions are executed symbolically; z3 decides the energy balance and (zero obliquity) angular-momentum balance under n^2 a^3 = G(m1+m2), equality of combined and separate functions and array==scalar; the e=0 clause is a QF_FP Float64 query on the same source executed with IEEE semantics.',
+    note='Trusted: z3 (NRA and QF_FP), symx executor, sqrt/cube-root atoms with their defining axioms. FP clause: e-independent arithmetic abstracted to fresh values bounded by 2^400.',
+    technique='symbolic execution + z3 nonlinear real arithmetic; QF_FP (Float64) for the e=0 special value',
+    design='2/C11'),
 }
 NOT_YET = {}
 ALL = ['C%02d' % i for i in range(1, 21)]
